@@ -14,7 +14,7 @@ from . import core
 NU = 1e18
 US = 1e-15
 ENERGY, POWER, TI = 50000.0, 1.0e6, 100.0
-ELS = {1: "deuterium", 2: "helium", 6: "carbon", 10: "neon"}
+ELS = {1: "deuterium", 2: "helium", 5: "carbon", 6: "carbon", 8: "neon", 9: "neon", 10: "neon"}      # charge -> element
 _SCENES = {}
 
 
@@ -31,7 +31,7 @@ def scene(mix, shape, D, step_cm=50, flow=(0, 0, 0)):
     if key in _SCENES:
         return _SCENES[key]
     calls = []
-    coeff = {ELS[zc]: (a, c, zc) for zc, n, a, c in mix}
+    coeff = {(ELS[zc], zc): (a, c, zc) for zc, n, a, c in mix}
 
     class Stop(R.BeamStoppingRate):
         def __init__(self, name): self.name = name
@@ -41,7 +41,7 @@ def scene(mix, shape, D, step_cm=50, flow=(0, 0, 0)):
             return (a + c * n / NU) * US * (e / ENERGY)        # proportional to the interaction energy
 
     class A(AtomicData):
-        def beam_stopping_rate(self, b, p, q): return Stop(p.name)
+        def beam_stopping_rate(self, b, p, q): return Stop((p.name, q))
 
     world = World()
     pl = Plasma(parent=world)
@@ -108,7 +108,7 @@ def replay(rec, ctx):
     # (T) arguments of the stopping-rate evaluations
     z2n = rec["z2n"]
     for name, e, n, t in calls[:200]:
-        zi = [zc for zc, *_ in rec["mix"] if ELS[zc] == name][0]
+        zi = name[1]
         if not (core.close(e, ENERGY * efac, rtol=1e-9) and core.close(n, z2n * NU / zi, rtol=1e-9) and core.close(t, TI, rtol=1e-12)):
             bad("stopping-rate-evaluated-at-wrong-arguments", f"{name}: (E, n_eq, T) = ({e}, {n}, {t}) vs ({ENERGY * efac}, {z2n * NU / zi}, {TI})")
             break
